@@ -335,12 +335,29 @@ func (x *Exec) loopHead(fr *Frame, li *loopInfo, cur *State, ins []edgeIn) {
 		gkeys = append(gkeys, k)
 	}
 	sort.Strings(gkeys)
+	// aliases (ghost names holding the same value, e.g. $visited and the iterator's own visited set)
+	// must stay aliases after the havoc
+	aliasOf := map[string]Value{}
 	for _, k := range gkeys {
 		if strings.HasPrefix(k, "defer.") {
 			continue
 		}
 		if v, ok := cur.ghost[k]; ok {
-			cur.ghost[k] = x.havocShape(k, v)
+			sig := ""
+			if ts, okr := rawTerms(v); okr {
+				for _, t := range ts {
+					sig += t.S + "|"
+				}
+			}
+			if nv, seen := aliasOf[sig]; seen && sig != "" {
+				cur.ghost[k] = nv
+				continue
+			}
+			nv := x.havocShape(k, v)
+			cur.ghost[k] = nv
+			if sig != "" {
+				aliasOf[sig] = nv
+			}
 		}
 	}
 	if li.lc != nil {
@@ -374,6 +391,9 @@ func (x *Exec) loopHead(fr *Frame, li *loopInfo, cur *State, ins []edgeIn) {
 	}
 	li.headState = cur.clone()
 	li.measure0 = nil
+	if (li.lc == nil || li.lc.Decreases == nil) && li.autoMeasure != nil {
+		li.measure0 = []Term{x.define("measure", li.autoMeasure(x, fr, cur))}
+	}
 	if li.lc != nil && li.lc.Decreases != nil {
 		for _, e := range li.lc.Decreases.Es {
 			t := x.define("measure", x.evalClauseInt(env, li.lc.Decreases, e))
@@ -493,7 +513,12 @@ func (x *Exec) backEdge(fr *Frame, li *loopInfo, from *ssa.BasicBlock, st *State
 		x.check(st, "inv-step", nil, li.pos, li.key+": auto "+a.text, g)
 	}
 	if li.lc == nil || li.lc.Decreases == nil {
-		x.loopsNoMeasure[fkey+": loop "+li.key] = true
+		if li.autoMeasure != nil && len(li.measure0) == 1 {
+			now := li.autoMeasure(x, fr, st)
+			x.check(st, "decreases", nil, li.pos, li.key+": auto len - rangeindex", lexLess([]Term{now}, li.measure0))
+		} else {
+			x.loopsNoMeasure[fkey+": loop "+li.key] = true
+		}
 	}
 }
 
@@ -520,6 +545,42 @@ func (x *Exec) autoInvariants(fr *Frame, li *loopInfo) {
 		return
 	}
 	li.autosDone = true
+	// range-over-slice index kept in the hidden local "rangeindex" (NaiveForm): -1 <= rangeindex < len
+	{
+		var cell *ssa.Alloc
+		var lenV ssa.Value
+		for _, ins2 := range li.header.Instrs {
+			if u, ok := ins2.(*ssa.UnOp); ok && u.Op == token.MUL {
+				if a, ok := u.X.(*ssa.Alloc); ok && a.Comment == "rangeindex" {
+					cell = a
+				}
+			}
+			if b, ok := ins2.(*ssa.BinOp); ok && b.Op == token.LSS && cell != nil {
+				lenV = b.Y
+			}
+		}
+		if cell != nil && lenV != nil {
+			c, lv := cell, lenV
+			li.autos = append(li.autos, autoInv{
+				text: "-1 <= rangeindex < len",
+				f: func(x *Exec, fr *Frame, st *State, li *loopInfo, phis map[*ssa.Phi]Value) Term {
+					cv, ok := st.cells[c]
+					if !ok {
+						return True
+					}
+					n := x.get(fr, lv).(VScalar).T
+					return And(Le(IntLit(-1), cv.(VScalar).T), Lt(cv.(VScalar).T, n))
+				},
+			})
+			li.autoMeasure = func(x *Exec, fr *Frame, st *State) Term {
+				cv, ok := st.cells[c]
+				if !ok {
+					return IntLit(0)
+				}
+				return Sub(x.get(fr, lv).(VScalar).T, cv.(VScalar).T)
+			}
+		}
+	}
 	// range-over-slice index: the hidden index phi stays within [-1, len)
 	for _, instr := range li.header.Instrs {
 		phi, ok := instr.(*ssa.Phi)
